@@ -1,4 +1,4 @@
-SPECIFICATION MCLiveSpec
+SPECIFICATION MCSpec
 CONSTANTS
   MaxApp = 3
   MaxTog = 0
@@ -6,9 +6,9 @@ CONSTANTS
   CapSet = {2}
   AtomicSet = {TRUE}
   TrackLast = FALSE
-  UseRoller = TRUE
+  UseRoller = FALSE
   SplitNew = TRUE
-  NewLoads = 1
-INVARIANTS C03_Quiet
-PROPERTIES C03_Live
+  NewLoads = 2
+INVARIANTS TypeOK C03_Run C03_NoDeath
+PROPERTIES StepsOK
 CHECK_DEADLOCK FALSE
